@@ -7,7 +7,7 @@ for every n. After each run a fixed battery of follow-up goals and the
 workload itself (unarmed) must give their reference answers on the same
 machine.
 """
-from vx.core import pool, px, terms
+from vx.core import pool, px, terms, flt
 
 ID = "C31"
 LEVEL = "fault_enumeration"
@@ -75,33 +75,12 @@ FOLLOWUPS = [
     "(X = f(Y), Y = 2, findall(P-Q, (member(P,[1,2]), member(Q,[x])), L))",
 ]
 
-CHUNK = 200
+
+def is_interrupt_ball(t):
+    return isinstance(t, tuple) and len(t) == 3 and t[0] == "error" and t[1] == "$interrupt_thrown"
 
 
-def setup(w, tier):
-    r = w.consult(HELPERS, persist=True)
-    if "error" in r.get("out", "") or "panic" in r:
-        raise pool.MachineryError("C31 helpers failed to load: %r" % (r,))
-
-
-def wl_goal(i):
-    return WORKLOADS[i][2]
-
-
-def bound_text(tier):
-    return "every instruction index of %d workloads%s" % (len(WORKLOADS), "" if tier == "thorough" else " (interior+epilogue of each; prologue once; meta variants every 5th)")
-
-
-def count_instrs(w, i):
-    w.rpc({"op": "arm", "kind": "interrupt", "n": 2 ** 62})
-    r = px.run_goals(w, [wl_goal(i)])[0]
-    rep = w.rpc({"op": "arm_report"})
-    if r.abn or rep.get("total") is None or not rep.get("saw_arm"):
-        raise pool.MachineryError("C31: counting run of workload %s failed: %r %r" % (WORKLOADS[i][0], r, rep))
-    return rep["total"], rep.get("w0"), rep.get("w1"), r
-
-
-def points(i, N, w0, tier):
+def points(i, N, w0, w1, tier):
     name = WORKLOADS[i][0]
     if tier == "thorough":
         return list(range(N))
@@ -113,110 +92,25 @@ def points(i, N, w0, tier):
     return list(range(lo, N))
 
 
+ENG = flt.Flt("C31", "interrupt", HELPERS, [(n, g) for (n, _, g) in WORKLOADS], FOLLOWUPS,
+              is_interrupt_ball, points, fault_name="interrupt")
+
+
+def bound_text(tier):
+    return "every instruction index of %d workloads%s" % (len(WORKLOADS), "" if tier == "thorough" else " (interior+epilogue of each; prologue once; meta variants every 5th)")
+
+
+def setup(w, tier):
+    ENG.setup(w, tier)
+
+
 def shards(tier):
-    # the number of instructions is measured here, once, on a scratch worker
-    w = pool.Worker()
-    try:
-        setup(w, tier)
-        sh = []
-        for i in range(len(WORKLOADS)):
-            N, w0, w1, _ = count_instrs(w, i)
-            pts = points(i, N, w0, tier)
-            for k in range(0, len(pts), CHUNK):
-                sh.append([i, N, w0, w1, pts[k:k + CHUNK]])
-        return sh
-    finally:
-        w.close()
-
-
-def reference(w, i):
-    """reference observations on this worker: unarmed workload + follow-ups"""
-    rs = px.run_goals(w, [wl_goal(i)] + FOLLOWUPS)
-    for r in rs:
-        if r.abn:
-            raise pool.MachineryError("C31: reference run abnormal: %r" % (r,))
-    return [obs_key(r) for r in rs]
-
-
-def obs_key(r):
-    if r.abn:
-        return ("abn", r.abn)
-    return (r.status, repr(r.sols), repr(r.obs), repr(r.exc))
-
-
-def is_interrupt_ball(t):
-    return isinstance(t, tuple) and len(t) == 3 and t[0] == "error" and t[1] == "$interrupt_thrown"
-
-
-def one_run(w, i, n, ref):
-    """-> (label, violation kind or None, observed)"""
-    w.rpc({"op": "arm", "kind": "interrupt", "n": n})
-    rs = px.run_goals(w, [wl_goal(i)])
-    rep = w.rpc({"op": "arm_report"})
-    r = rs[0]
-    if r.abn:
-        # the machine was rebuilt; nothing more to observe on it
-        return "abnormal", "workload " + r.abn, r.abn
-    fol = px.run_goals(w, [wl_goal(i)] + FOLLOWUPS)
-    # what happened to the armed run
-    delivered = None
-    if r.obs and isinstance(r.obs[0], tuple) and r.obs[0][0] == "ball":
-        delivered = "caught" if is_interrupt_ball(r.obs[0][1]) else "other_ball"
-    elif r.status == "exc":
-        delivered = "escaped" if is_interrupt_ball(r.exc) else "other_exc"
-    elif r.obs and (r.obs[0] == "completed" or (isinstance(r.obs[0], tuple) and r.obs[0][0] == "completed")):
-        delivered = "completed"
-    else:
-        delivered = "none"
-    if rep.get("interrupt_flag_left_set"):
-        return delivered, "interrupt flag left set", repr(rep)
-    if delivered in ("other_ball", "other_exc"):
-        return delivered, "wrong ball", repr(r.obs or r.exc)[:300]
-    if delivered in ("completed", "none"):
-        return delivered, "interrupt not delivered (%s)" % delivered, repr(r)[:300]
-    for k, (fr, want) in enumerate(zip(fol, ref)):
-        got = obs_key(fr)
-        if got != want:
-            what = "workload rerun" if k == 0 else "followup %d" % k
-            if fr.abn:
-                return delivered, "%s %s" % (what, fr.abn), fr.abn
-            return delivered, "%s differs" % what, {"got": repr(got)[:400], "want": repr(want)[:400]}
-    return delivered, None, None
-
-
-def phase(n, w0, w1):
-    if w0 is not None and n < w0:
-        return "prologue"
-    if w1 is not None and n >= w1:
-        return "epilogue"
-    return "interior"
+    return ENG.shards(tier)
 
 
 def run_shard(w, shard, tier):
-    i, N, w0, w1, pts = shard
-    acc = px.ShardAcc()
-    w.new_machine()
-    ref = reference(w, i)
-    name = WORKLOADS[i][0]
-    for n in pts:
-        label, vk, obs = one_run(w, i, n, ref)
-        ph = phase(n, w0, w1)
-        acc.case(ph == "interior", "%s/%s" % (ph, label), sample={"workload": name, "n": n, "of": N, "phase": ph, "result": label})
-        if vk:
-            acc.violation("%s %s: %s" % (name, ph, vk), {"workload": name, "n": n}, expected="interrupt ball, clean follow-ups", observed=obs)
-            # continue on a clean machine
-            w.new_machine()
-            ref = reference(w, i)
-    acc.extra["instructions_" + name] = 0
-    return acc.result()
+    return ENG.run_shard(w, shard, tier)
 
 
 def recheck(w, case, tier):
-    i = [k for k, x in enumerate(WORKLOADS) if x[0] == case["workload"]][0]
-    w.new_machine()
-    N, w0, w1, _ = count_instrs(w, i)
-    ref = reference(w, i)
-    label, vk, obs = one_run(w, i, case["n"], ref)
-    if vk:
-        return {"sig": "%s %s: %s" % (case["workload"], phase(case["n"], w0, w1), vk), "case": case, "observed": obs}
-    return None
+    return ENG.recheck(w, case, tier)
